@@ -3,6 +3,7 @@ import VelaVerif.Lemmas.NpuOpBuildLegal
 import VelaVerif.Lemmas.NpuOpBuildExample
 import VelaVerif.Handlers.NpuOpBuild
 import VelaVerif.Props.C06
+import VelaVerif.Lemmas.FloatExactRat
 /-!
 # C06, the link in front of the register generator: scheduled operation → `NpuOperation`
 
@@ -249,11 +250,8 @@ real operation by the Spec checker). -/
     with the quantisation the operation programs for its OFM, whose zero point may be forced to 0 — are the bounds of the
     tensor's own quantisation, `q.zeroPoint + round(v / q.scale)`; in particular the zero point is neither lost when the
     register is forced to 0 nor added twice when it is not (the two defects repaired in a125c1d). -/
-/- Full statement (not proved): the same with `fo := Handlers.NpuOpBuild.floatOps` (exact IEEE arithmetic) and, instead of
-   `hrt`, the hypotheses "`q.scale` is a normal positive float, every bound quantises to an integer of magnitude ≤ 2^20".  Missing:
-   `RoundTrip floatOps s k n` for normal `s`, `|n| ≤ 2^20` — an error analysis of `Requant.roundTo` (two roundings to 24 bits
-   stay within 1/4 of `n`, the float32 addition of 1/2 is then exact).  The Spec checker evaluates the very equality on every
-   real operation (`clamp`), and the example below evaluates `RoundTrip` on a real instance. -/
+/- Parametric in the float operations, with the one float fact as hypothesis `hrt`; `activation_clamp_spec` below is the full
+   statement for the exact IEEE operations. -/
 theorem activation_clamp_spec_partial (fo : FloatOps) (c : StripeD) (arch : ArchD) (kind : Kind) (b : BlockB) (o : Oracle) (r : Built)
     (hb : setCommon fo c arch kind = .ok b) (hr : toRecord fo b o = .ok r)
     (a : ActD) (ha : c.op.activation = some a) (hrelu : a.faf.isRelu = true)
@@ -326,22 +324,24 @@ theorem activation_clamp_spec_partial (fo : FloatOps) (c : StripeD) (arch : Arch
     (the defect repaired in d77406b quantised them with `alpha`). -/
 theorem activation_clamp_override_preserved_partial (fo : FloatOps) (op : OpD) (b : BlockB) (u : EwUpd)
     (h : ewFinish fo op b = .ok u) (hrelu : b.act.opType = 0) (hq : b.ofm.fm.hasQuant = true)
-    (hsc : b.ofm.scale.isSome = true) (hcongr : ∀ a b x, fo.eq a b = true → fo.qdiv x a = fo.qdiv x b)
+    (hsc : b.ofm.scale.isSome = true)
+    (hcongr : ∀ os s x, ewOutputScale fo op b = .ok (some (some os)) → b.ofm.scale = some s → fo.eq os s = true →
+      fo.qdiv x os = fo.qdiv x s)
     (qmin qmax : Option Int)
     (hmin : quantiseOpt fo b.act.min true b.ofm.scale b.ofm.fm.zeroPoint = .ok qmin)
     (hmax : quantiseOpt fo b.act.max true b.ofm.scale b.ofm.fm.zeroPoint = .ok qmax)
-    (hrt : ∀ os x k, (b.act.min = some x ∨ b.act.max = some x) → fo.qdiv x (b.ofm.scale.getD fo.one) = some k →
-      RoundTrip fo os 0 k) :
+    (hrt : ∀ os x k, ewOutputScale fo op b = .ok (some (some os)) → (b.act.min = some x ∨ b.act.max = some x) →
+      fo.qdiv x (b.ofm.scale.getD fo.one) = some k → RoundTrip fo os 0 k) :
     u.ofm.fm.hasQuant = true ∧ u.ofm.fm.zeroPoint = b.ofm.fm.zeroPoint ∧ u.act.opType = 0 ∧
     quantiseOpt fo u.act.min true u.ofm.scale u.ofm.fm.zeroPoint = .ok qmin ∧
     quantiseOpt fo u.act.max true u.ofm.scale u.ofm.fm.zeroPoint = .ok qmax := by
   -- a bound rewritten by `rescaleBound` quantises, in the overriding scale, to what it quantised to before
-  have key : ∀ (os s : Fl) (v w : Option Fl) (r : Option Int), b.ofm.scale = some s →
-      (v = b.act.min ∨ v = b.act.max) →
+  have key : ∀ (os s : Fl) (v w : Option Fl) (r : Option Int), ewOutputScale fo op b = .ok (some (some os)) →
+      b.ofm.scale = some s → (v = b.act.min ∨ v = b.act.max) →
       rescaleBound fo os s b.ofm.fm.zeroPoint v = .ok w →
       quantiseOpt fo v true b.ofm.scale b.ofm.fm.zeroPoint = .ok r →
       quantiseOpt fo w true (some os) b.ofm.fm.zeroPoint = .ok r := by
-    intro os s v w r hs hv hw hr
+    intro os s v w r hos hs hv hw hr
     unfold rescaleBound at hw
     cases v with
     | none =>
@@ -355,7 +355,7 @@ theorem activation_clamp_override_preserved_partial (fo : FloatOps) (op : OpD) (
       | some k =>
         simp only [hk] at hw
         injection hw with hw; subst hw
-        have hrt' := hrt os x k hx (by simpa [hs] using hk)
+        have hrt' := hrt os x k hos hx (by simpa [hs] using hk)
         unfold RoundTrip at hrt'
         simp only [quantiseOpt, quantise, ↓reduceIte, quantiseF32, hs, Option.getD_some, hk] at hr ⊢
         have : b.ofm.fm.zeroPoint + k - b.ofm.fm.zeroPoint = k := by omega
@@ -373,7 +373,7 @@ theorem activation_clamp_override_preserved_partial (fo : FloatOps) (op : OpD) (
     · cases h
   · injection h with h; subst h
     exact ⟨hq, rfl, hrelu, hmin, hmax⟩
-  · rename_i os _
+  · rename_i os hos
     simp only [hq, Bool.not_true, Bool.false_eq_true, ↓reduceIte] at h
     split at h
     · rename_i s hs
@@ -382,7 +382,7 @@ theorem activation_clamp_override_preserved_partial (fo : FloatOps) (op : OpD) (
         split at h
         · rename_i mn mx hmn hmx
           injection h with h; subst h
-          exact ⟨rfl, rfl, hrelu, key os s _ mn qmin hs (Or.inl rfl) hmn hmin, key os s _ mx qmax hs (Or.inr rfl) hmx hmax⟩
+          exact ⟨rfl, rfl, hrelu, key os s _ mn qmin hos hs (Or.inl rfl) hmn hmin, key os s _ mx qmax hos hs (Or.inr rfl) hmx hmax⟩
         · cases h
         · cases h
       · simp only [hc, Bool.false_eq_true, ↓reduceIte] at h
@@ -396,10 +396,78 @@ theorem activation_clamp_override_preserved_partial (fo : FloatOps) (op : OpD) (
           | none => simpa [quantiseOpt] using hr
           | some x =>
             simp only [quantiseOpt, quantise, ↓reduceIte, quantiseF32, hs, Option.getD_some] at hr ⊢
-            rw [hcongr os s x he]; exact hr
+            rw [hcongr os s x hos hs he]; exact hr
         exact ⟨rfl, rfl, hrelu, hsame _ _ hmin, hsame _ _ hmax⟩
     · rename_i hs
       rw [hs] at hsc; cases hsc
+
+/-! ### (d) at full strength for the exact float operations
+
+`Lemmas/FloatExact.lean` / `FloatExactRat.lean` prove the float fact the two statements above assume, for the exact IEEE routines
+the handler runs (`Spec/FloatExact.lean`): `roundTo_spec` (round to nearest, error at most half a unit in the last place),
+`roundTo_rat` (relative error `2^-p` over ℚ), `f64_roundtrip`, and `qdiv_mulInt`: for a positive normal scale `s` below `2^952`
+and `|n| ≤ 2^18`, `quantise(s·n, s) = n` — five roundings (product, float32 of the product, float32 of the scale, quotient,
+addition of 1/2) each of relative error `2^-24` keep the quotient within 1/8 of `n`. -/
+
+/-- a positive normal binary64 with biased exponent 1…2026 (a value in `[2^-1022, 2^952)`) -/
+def NormalScale (s : Fl) : Prop := s.bits < 2 ^ 63 ∧ 1 ≤ s.bits / 2 ^ 52 % 2048 ∧ s.bits / 2 ^ 52 % 2048 ≤ 2026
+
+open VelaVerif.Handlers.NpuOpBuild (floatOps) in
+/-- the float hypothesis of the clamp theorems holds of the exact float operations -/
+theorem roundTrip_exact (s : Fl) (ik : Nat) (n : Int) (hs : NormalScale s) (hn : n.natAbs ≤ 2 ^ 18) :
+    RoundTrip floatOps s ik n := by
+  obtain ⟨m, e, hd, hm1, hm2, he1, he2⟩ := FloatExact.decode_normal s.bits hs.1 ⟨hs.2.1, hs.2.2⟩
+  obtain ⟨P, hP⟩ := FloatExact.mulInt_some s.bits s.kind ik n m e hd hm1 hm2 he1 he2 hn
+  have := FloatExact.qdiv_mulInt s.bits s.kind ik n P ⟨false, m, e⟩ hd rfl (by show m ≠ 0; omega) hn hP
+  unfold RoundTrip
+  show FloatExact.qdiv ((FloatExact.mulInt s.bits s.kind ik n).getD Handlers.NpuOpBuild.badBits) s.bits = some n
+  rw [hP]; exact this
+
+open VelaVerif.Handlers.NpuOpBuild (floatOps) in
+/-- **(d), full**: `activation_clamp_spec_partial` for the exact float operations, the float hypothesis discharged:
+    it suffices that the scale of the OFM tensor is a positive normal float and that every clamp bound quantises to an
+    integer of magnitude at most `2^18` (register values have 16 bits). -/
+theorem activation_clamp_spec (c : StripeD) (arch : ArchD) (kind : Kind) (b : BlockB) (o : Oracle) (r : Built)
+    (hb : setCommon floatOps c arch kind = .ok b) (hr : toRecord floatOps b o = .ok r)
+    (a : ActD) (ha : c.op.activation = some a) (hrelu : a.faf.isRelu = true)
+    (q : Quant) (hq : c.ofm.quant = some q) (hoq : c.op.ofmQuant = some q) (hforced : c.op.forcedOutputQuant = none)
+    (hs : NormalScale (q.scale.getD floatOps.one))
+    (hsmall : ∀ x k, (a.min = some x ∨ a.max = some x) → floatOps.qdiv x (q.scale.getD floatOps.one) = some k →
+      (q.zeroPoint + k).natAbs ≤ 2 ^ 18) :
+    ∃ blk, r.op = .block blk ∧
+      blk.activation = some ⟨0, a.min.bind (specBound floatOps q.scale q.zeroPoint),
+                             a.max.bind (specBound floatOps q.scale q.zeroPoint), a.lutIndex⟩ :=
+  activation_clamp_spec_partial floatOps c arch kind b o r hb hr a ha hrelu q hq hoq hforced
+    (fun x k hx hk => roundTrip_exact _ _ _ hs (hsmall x k hx hk))
+
+open VelaVerif.Handlers.NpuOpBuild (floatOps) in
+/-- **(d), full, elementwise override**: for the exact float operations, a positive normal overriding scale, bounds that
+    quantise to at most `2^18`, and scales of one kind (both `numpy.float32`, or neither — so that `!=` compares bit patterns) -/
+theorem activation_clamp_override_preserved (op : OpD) (b : BlockB) (u : EwUpd)
+    (h : ewFinish floatOps op b = .ok u) (hrelu : b.act.opType = 0) (hq : b.ofm.fm.hasQuant = true)
+    (hsc : b.ofm.scale.isSome = true)
+    (hos : ∀ os, ewOutputScale floatOps op b = .ok (some (some os)) → NormalScale os)
+    (hkind : ∀ os s, ewOutputScale floatOps op b = .ok (some (some os)) → b.ofm.scale = some s →
+      ¬(os.kind = 1 ∧ s.kind = 0) ∧ ¬(os.kind = 0 ∧ s.kind = 1))
+    (qmin qmax : Option Int)
+    (hmin : quantiseOpt floatOps b.act.min true b.ofm.scale b.ofm.fm.zeroPoint = .ok qmin)
+    (hmax : quantiseOpt floatOps b.act.max true b.ofm.scale b.ofm.fm.zeroPoint = .ok qmax)
+    (hsmall : ∀ x k, (b.act.min = some x ∨ b.act.max = some x) → floatOps.qdiv x (b.ofm.scale.getD floatOps.one) = some k →
+      k.natAbs ≤ 2 ^ 18) :
+    u.ofm.fm.hasQuant = true ∧ u.ofm.fm.zeroPoint = b.ofm.fm.zeroPoint ∧ u.act.opType = 0 ∧
+    quantiseOpt floatOps u.act.min true u.ofm.scale u.ofm.fm.zeroPoint = .ok qmin ∧
+    quantiseOpt floatOps u.act.max true u.ofm.scale u.ofm.fm.zeroPoint = .ok qmax := by
+  refine activation_clamp_override_preserved_partial floatOps op b u h hrelu hq hsc ?_ qmin qmax hmin hmax
+    (fun os x k ho hx hk => roundTrip_exact os 0 k (hos os ho) (hsmall x k hx hk))
+  intro os s x ho hs he
+  obtain ⟨hk1, hk2⟩ := hkind os s ho hs
+  have : os.bits = s.bits := by
+    have he' : FloatExact.eq os.bits os.kind s.bits s.kind = true := he
+    unfold FloatExact.eq at he'
+    rw [if_neg hk1, if_neg hk2] at he'
+    simpa using he'
+  show FloatExact.qdiv x.bits os.bits = FloatExact.qdiv x.bits s.bits
+  rw [this]
 
 /-! ## (a) the operations the builder accepts are legal for the register generator
 
@@ -687,6 +755,13 @@ example : (buildBlock floatOps clamp_pool clamp_poolArch).toOption.map
       some (some (some 127), 0, 0) := by decide +kernel
 
 example : RoundTrip floatOps ⟨4601569897808396288, 1⟩ 2 127 := by unfold RoundTrip; decide +kernel
+
+/-- the scale of that tensor (≈ 0.43, a `numpy.float32`) meets `NormalScale`, and so does the Python int 1 used for "no scale":
+    `activation_clamp_spec` (the full statement) applies to the command -/
+example : NormalScale ⟨4601569897808396288, 1⟩ ∧ NormalScale floatOps.one ∧
+    clamp_pool.ofm.quant = clamp_pool.op.ofmQuant ∧ clamp_pool.op.forcedOutputQuant = none ∧
+    (clamp_pool.op.activation.map (·.faf.isRelu)) = some true := by
+  unfold NormalScale; decide +kernel
 
 /-- (d) ABS + RELU6 (OFM scale overridden by the ratio of the scales): the clamp stays [-31, 219] in the OFM tensor's
     quantisation (zero point -31, 6 / scale = 250) -/
